@@ -1046,7 +1046,7 @@ def readspec(platein, mjd=None, fiber=None, **kwargs):
             spz = fits.open(zfile)
             if 'znum' in kwargs:
                 nper = spz[0].header['DIMS0']
-                zfiber = (thisfiber-1)*nper + kwargs['znum'] - 1
+                zfiber = (thisfiber-1)*nper + kwargs['znum']
             else:
                 zfiber = thisfiber
             tmp = spz[1].data[zfiber-1]
